@@ -23,10 +23,10 @@ TRUSTED = ['threaded code: the real DataProviderServer / SubscriptionManager / _
 ASSUMPTIONS = ['per-item request histories alternate SUB/USB starting with SUB (as the protocol prescribes); request ids are distinct',
                'adapter calls return or raise an Exception (a call that never returns is outside the property)']
 
-SNAP = [True, False, False, ('raise', 'RuntimeError'), ('raise', 'SubscribeError', 'nonstr')]
+SNAP = [True, False, False, ('raise', 'RuntimeError'), ('raise', 'SubscribeError', 'nonstr'), ('raise', 'EmptyError')]
 SUB = ['ret', 'ret', 'ret', ('raise', 'SubscribeError'), ('raise', 'FailureError'), ('raise', 'RuntimeError'), ('raise', 'KeyError'),
-       ('raise', 'SubscribeError', 'nonstr'), ('raise', 'FailureError', 'nonstr')]
-USB = ['ret', 'ret', 'ret', ('raise', 'SubscribeError'), ('raise', 'RuntimeError'), ('raise', 'SubscribeError', 'nonstr')]
+       ('raise', 'SubscribeError', 'nonstr'), ('raise', 'FailureError', 'nonstr'), ('raise', 'EmptyError'), ('raise', 'EmptySubscribeError')]
+USB = ['ret', 'ret', 'ret', ('raise', 'SubscribeError'), ('raise', 'RuntimeError'), ('raise', 'SubscribeError', 'nonstr'), ('raise', 'EmptyError')]
 KINDS = ['upd', 'upd', 'eos', 'cls']
 
 
